@@ -115,6 +115,15 @@ CHECKS = {
              "pair constructions and the CIterator protocol are straight-line or single-match functions, so shape rules decide them for every input.",
         note="behaviour of the wrapped closure/iterator is outside the property; trusts Iterator::next / MaybeUninit semantics",
         ref="4 C15"),
+    "C19": dict(
+        cat="other",
+        technique="ownership ledger on task/mod.rs: consuming-slot identification from the record vtable's implementations, who-may-call rule on those slots, interprocedural handle balance per RawWakerVTable position, exactly-once wake rules",
+        text="the foreign-side waker is a reference-counted record holding one clone of the caller's waker; the property reduces to: the record's bits are consumed "
+             "only by the record's own Drop, each per-handle function has the right net handle effect, each wake path wakes once, and the borrowed view neither "
+             "consumes nor releases. The pinned tree violated the first rule (double release) and was repaired by a fix: commit. Thread schedules are not explored: "
+             "all shared state is inside BaseArc's atomics and the caller's waker, and the rules do not depend on the schedule.",
+        note="trusts tarc::BaseArc and the std Waker contract",
+        ref="4 C19"),
     "C20": dict(
         cat="other",
         technique="finite-domain evaluation of the verdict functions' MIR over their complete discriminant domains, call-argument order by origin tracing, StableAbi impl facts for every generated ADT in a layout_checks build",
